@@ -165,6 +165,34 @@ theorem bufinv_incRef {g : State} {n : Nat} (I : GcInv g) (B : BufInv g)
     · subst hr; exact .inr (Live.self hf he)
     · left; rw [incRef_get hf, if_neg hr]; exact hp
 
+/-- cloning a handle of a live object (one reachable from a held one) -/
+theorem bufinv_incRef_live {g : State} {n : Nat} (I : GcInv g) (B : BufInv g)
+    (hf : (g.nodes.get n).freed = false) (hl : Live g n) : BufInv (incRef g n) := by
+  have F := rcOnly_incRef hf
+  have hlive : ∀ i, Live g i → Live (incRef g n) i := by
+    intro i h
+    refine h.of_same F.freed F.owned (fun r _ her => ?_)
+    by_cases hr : r = n
+    · subst hr; rw [ext_incRef_self I hf]; omega
+    · rw [ext_incRef_other hf hr]; exact her
+  refine bufinv_of_same_graph B F.nextId F.freed F.owned ?_ ?_ ?_ (fun i h => .inl (hlive i h))
+  · intro i hfi hc
+    rw [incRef_roots hf]
+    rw [F.freed] at hfi
+    rw [incRef_get hf] at hc
+    by_cases hi : i = n
+    · subst hi
+      rw [if_pos rfl] at hc
+      rcases hc with h | h
+      · exact B.cand i hfi (.inl h)
+      · cases h
+    · rw [if_neg hi] at hc; exact B.cand i hfi hc
+  · intro r hr; rw [incRef_roots hf]; exact hr
+  · intro r _ hp
+    by_cases hr : r = n
+    · subst hr; exact .inr hl
+    · left; rw [incRef_get hf, if_neg hr]; exact hp
+
 /-! ### `dec` (drop a handle) -/
 
 theorem decRef_get_other (g : State) {n i : Nat} (hi : i ≠ n) :
